@@ -26,8 +26,8 @@ ResVariants ==
   { Res(0, 0, <<k>>, <<0>>) : k \in {0, 1, 3, 7, 14} } \cup
   { Res(0, 1, <<k1, k2>>, <<0, 0>>) : k1 \in {0, 4}, k2 \in {2, 14} } \cup
   { Res(0, 2, <<1, 2, 3, 4>>, <<0, 0, 0, 0>>) } \cup
-  { Res(0, 0, <<15>>, <<10>>), Res(0, 1, <<15, 3>>, <<11, 0>>), Res(0, 1, <<2, 15>>, <<0, 12>>) } \cup     \* escaped partitions
-  { Res(1, 0, <<k>>, <<0>>) : k \in {0, 5, 16, 30} } \cup { Res(1, 1, <<31, 20>>, <<10, 0>>) }            \* 5-bit method
+  { Res(0, 0, <<15>>, <<13>>), Res(0, 1, <<15, 3>>, <<13, 0>>), Res(0, 1, <<2, 15>>, <<0, 14>>) } \cup     \* escaped partitions
+  { Res(1, 0, <<k>>, <<0>>) : k \in {0, 5, 16, 30} } \cup { Res(1, 1, <<31, 20>>, <<13, 0>>) }            \* 5-bit method
 
 Sub(kind, wasted, samples, order, coefs, prec, shift, res) ==
   [kind |-> kind, wasted |-> wasted, samples |-> samples, order |-> order, coefs |-> coefs, prec |-> prec, shift |-> shift, res |-> res]
@@ -40,7 +40,7 @@ SubVariants(x, w) ==
   { Sub("fixed", w, xs, o, <<>>, 0, 0, r) : o \in 0..4, r \in { q \in ResVariants : (N \div 2^q.porder) >= 4 } } \cup
   { Sub("lpc", w, xs, Len(c), c, p, sh, r) :
       c \in { <<1>>, <<2, -1>>, <<1, 1, -1>> }, p \in {3, 15}, sh \in {0, 1},
-      r \in { Res(0, 0, <<4>>, <<0>>), Res(0, 1, <<15, 6>>, <<11, 0>>), Res(1, 0, <<17>>, <<0>>) } }
+      r \in { Res(0, 0, <<4>>, <<0>>), Res(0, 1, <<15, 6>>, <<14, 0>>), Res(1, 0, <<17>>, <<0>>) } }
 
 Frame(strategy, bsCode, srCode, chCode, bpsCode, numHi, numLo, n, rate, bps, subs) ==
   [strategy |-> strategy, bsCode |-> bsCode, srCode |-> srCode, chCode |-> chCode, bpsCode |-> bpsCode,
@@ -65,7 +65,7 @@ Axis2 ==
 Axis3 ==
   { LET cc == CodedChannels(Sig[a], Sig[b], code)
     IN Frame(0, 6, 9, code, 1, 0, 9, N, 44100, 8,
-             << Sub(kd[1], 0, cc[1], kd[2], <<>>, 0, 0, Res(0, 0, <<5>>, <<0>>)), Sub(kd[1], 0, cc[2], kd[2], <<>>, 0, 0, Res(0, 1, <<6, 15>>, <<0, 10>>)) >>) :
+             << Sub(kd[1], 0, cc[1], kd[2], <<>>, 0, 0, Res(0, 0, <<5>>, <<0>>)), Sub(kd[1], 0, cc[2], kd[2], <<>>, 0, 0, Res(0, 1, <<6, 15>>, <<0, 13>>)) >>) :
     a \in 1..4, b \in 1..4, code \in {1, 8, 9, 10}, kd \in { <<"verbatim", 0>>, <<"fixed", 2>> } } \cup
   { Frame(0, 6, 9, c - 1, 1, 0, 0, N, 44100, 8, [j \in 1..c |-> Sub("verbatim", 0, Sig[(j % 4) + 1], 0, <<>>, 0, 0, NoR)]) : c \in 3..8 }
 
